@@ -253,7 +253,7 @@ func (fr *Frame) appendBuiltin(in ssa.CallInstruction, c *ssa.CallCommon, args [
 	fits := ex.sc.Define("append.fits", SBool, mkApp("<=", newLen, sCap))
 	fresh := fr.allocRef()
 	newCap := ex.sc.Fresh("append.cap", SInt)
-	fr.assume(mkAnd(mkApp(">=", newCap, newLen), mkApp("<=", newCap, intLit(two63))))
+	fr.assume(mkAnd(mkApp(">=", newCap, newLen), mkApp("<", newCap, intLit(two63))))
 	// append(s) with nothing to add returns s itself
 	noop := ex.sc.Define("append.noop", SBool, mkEq(tLen, "0"))
 	rArr := ex.sc.Define("append.arr", SInt, mkIte(mkOr(fits, noop), sArr, fresh))
@@ -557,7 +557,8 @@ func (fr *Frame) applyContract(in ssa.CallInstruction, key string, fc *FuncContr
 		}
 	}
 	for _, c := range fc.Ensures {
-		if c.OnPanic {
+		if c.OnPanic || usesGhostFuncs(c.E) {
+			// clauses about the callee's ghost enumeration/permutation are not visible to callers
 			continue
 		}
 		fr.assume(fr.evalClause(env2, c))
@@ -601,18 +602,31 @@ func (fr *Frame) havocLoc(ml ModLoc) {
 	}
 }
 
-// localsAt: source-level local variables visible at an instruction (from DebugRefs
-// that dominate it), for call-site assertions.
+// localsAt: source-level local variables visible at an instruction (from the
+// DebugRefs that dominate it, the closest one winning). at == nil: at the
+// start of block ab.
 func (fr *Frame) localsAt(at ssa.Instruction) map[string]TV {
+	return fr.localsAtBlock(at.Block(), at)
+}
+
+func (fr *Frame) localsAtBlock(ab *ssa.BasicBlock, at ssa.Instruction) map[string]TV {
 	out := map[string]TV{}
-	ab := at.Block()
-	for _, b := range fr.fn.Blocks {
-		if !b.Dominates(ab) {
-			continue
-		}
+	var chain []*ssa.BasicBlock
+	for b := ab; b != nil; b = b.Idom() {
+		chain = append(chain, b)
+	}
+	for i := len(chain) - 1; i >= 0; i-- {
+		b := chain[i]
 		for _, in := range b.Instrs {
-			if in == at {
+			if in == at && at != nil {
 				break
+			}
+			if b == ab && at == nil {
+				if _, isPhi := in.(*ssa.Phi); !isPhi {
+					if _, isDbg := in.(*ssa.DebugRef); !isDbg {
+						break
+					}
+				}
 			}
 			dr, ok := in.(*ssa.DebugRef)
 			if !ok {
@@ -623,7 +637,8 @@ func (fr *Frame) localsAt(at ssa.Instruction) map[string]TV {
 				continue
 			}
 			v, have := fr.vals[dr.X]
-			if _, isC := dr.X.(*ssa.Const); isC {
+			switch dr.X.(type) {
+			case *ssa.Const, *ssa.Global, *ssa.Function:
 				v, have = fr.val(dr.X), true
 			}
 			if !have {
@@ -708,4 +723,43 @@ func (ex *Exec) mergeExits(exits []Exit, rs *types.Tuple, name string) (string, 
 		res = append(res, ex.mergeVals(conds, vs, rs.At(j).Type(), fmt.Sprintf("%s.%d", name, j)))
 	}
 	return reach, st, res
+}
+
+func usesGhostFuncs(e Expr) bool {
+	found := false
+	var walk func(e Expr)
+	walk = func(e Expr) {
+		switch e := e.(type) {
+		case *EHash:
+			found = true
+		case *EUnary:
+			walk(e.X)
+		case *EBinary:
+			walk(e.X)
+			walk(e.Y)
+		case *ECall:
+			for _, a := range e.Args {
+				walk(a)
+			}
+		case *EIndex:
+			walk(e.X)
+			walk(e.I)
+		case *ESliceE:
+			walk(e.X)
+			if e.Lo != nil {
+				walk(e.Lo)
+			}
+			if e.Hi != nil {
+				walk(e.Hi)
+			}
+		case *ESel:
+			walk(e.X)
+		case *EQuant:
+			walk(e.Body)
+		case *EStarAll:
+			walk(e.X)
+		}
+	}
+	walk(e)
+	return found
 }
